@@ -170,7 +170,11 @@ def generate(req):
                       [(r.randint(0, 12) if r.random() > 0.05 else None, g.text_value(), g.any_value()) for i in range(m)])
 
     if "wr" in feats:
-        c.execute("create table t_wr(a, b TEXT, c INTEGER, d, PRIMARY KEY(c, a)) WITHOUT ROWID")
+        if prof.get("wr_variant"):
+            # same table name and column list as everywhere else, another primary key order
+            c.execute("create table t_wr(a, b TEXT, c INTEGER, d, PRIMARY KEY(a, c)) WITHOUT ROWID")
+        else:
+            c.execute("create table t_wr(a, b TEXT, c INTEGER, d, PRIMARY KEY(c, a)) WITHOUT ROWID")
         c.execute("create index ix_wr_d on t_wr(d)")
         c.execute("create index ix_wr_bc on t_wr(b DESC, c)")
         c.execute("create index ix_wr_anc on t_wr(a COLLATE NOCASE)")
@@ -190,6 +194,14 @@ def generate(req):
                         g.any_value()) for i in range(m)])
         c.execute("create table t_wr4(i INTEGER PRIMARY KEY, s TEXT COLLATE NOCASE UNIQUE, t, UNIQUE(t, i)) WITHOUT ROWID")
         c.executemany("insert or ignore into t_wr4 values(?,?,?)", [(r.randint(-50, 50), g.text_value(), g.any_value()) for i in range(m)])
+        # UNIQUE first, then a PRIMARY KEY on the same column with the other direction (SQLite keeps the first)
+        c.execute("create table t_wr5(a TEXT UNIQUE, n, PRIMARY KEY(a DESC)) WITHOUT ROWID")
+        c.execute("create index ix_wr5_n on t_wr5(n)")
+        c.executemany("insert or ignore into t_wr5 values(?,?)", [(g.text_value() + str(i), r.randint(0, 9)) for i in range(m)])
+        # the primary key spells its columns differently from the column definitions
+        c.execute("create table t_wr6(Name TEXT, Region TEXT, Qty, PRIMARY KEY (region, NAME)) WITHOUT ROWID")
+        c.execute("create index ix_wr6_q on t_wr6(qty, name)")
+        c.executemany("insert or ignore into t_wr6 values(?,?,?)", [("n%d" % (i % 17), "r%d" % (i % 5), g.any_value()) for i in range(m)])
         c.execute("create table t_wr3(x INTEGER, y INTEGER, z TEXT, w, PRIMARY KEY(z, x, y)) WITHOUT ROWID")
         c.execute("create index ix_wr3_wy on t_wr3(w, y)")
         c.execute("create index ix_wr3_znc on t_wr3(z COLLATE NOCASE)")
@@ -243,6 +255,7 @@ def generate(req):
         c.execute('create table t_rowidname(oid TEXT, rowid INTEGER, v)')
         c.executemany("insert into t_rowidname values(?,?,?)", [("o%d" % i, 1000 - i, g.any_value()) for i in range(max(3, n // 20))])
         c.execute('create index ix_rowidname on t_rowidname(rowid, oid)')
+        c.execute('create index ix_rowidname_v on t_rowidname(v)')
         c.execute("create table t_one(x)")
         c.execute("insert into t_one values('only')")
         if "plain" in feats:
